@@ -54,15 +54,20 @@ func (r *yieldRewriter) rewriteRange(n *ast.RangeStmt, emit func(*ast.AssignStmt
 		emit(r.rewriteRangeToForIter(n, iter))
 	}
 
-	ty := r.pkg.TypeOf(n.X)
-	r.assert(!isNil(ty), n.X, "type missing")
-	ty = ty.Underlying()
+	xTy := r.pkg.TypeOf(n.X)
+	r.assert(!isNil(xTy), n.X, "type missing")
+	ty := xTy.Underlying()
 
 	switch ty := ty.(type) {
 	case *types.Basic:
 		switch {
 		case ty.Info()&types.IsString != 0:
-			do(cstNewStringIter, n.X)
+			arg := n.X
+			if _, plain := xTy.(*types.Basic); !plain {
+				// NewStringIter takes a string, a value of a defined string type needs the conversion
+				arg = X.Call(X.Ident("string"), n.X)
+			}
+			do(cstNewStringIter, arg)
 		case ty.Info()&types.IsInteger != 0:
 			// >= 1.22 only, but no release, need test
 			do(cstNewIntegerIter, n.X)
